@@ -35,6 +35,9 @@ pub fn decode(msgs: &[FlightData]) -> (Option<Value>, Option<Value>, bool, Vec<V
             Ok(None) => break,
             Ok(Some(Ok(b))) => out.push(json!({"n": b.num_rows(), "cols": cols_json(&b), "dv": attached_json(&b)})),
             Ok(Some(Err(e))) => {
+                if std::env::var("C04_DEBUG").is_ok() {
+                    eprintln!("flight decode error: {e}");
+                }
                 err = format!("err:{}", variant(&e));
                 break;
             }
@@ -64,6 +67,9 @@ pub fn run(ep: &Episode, o: &Opts, resend: bool, max: usize, with_schema: bool, 
             if unsupported(&e.to_string()) {
                 return None;
             }
+            if std::env::var("C04_DEBUG").is_ok() {
+                eprintln!("flight encode error [{}]: {e}", ep.schema.fields().iter().map(|f| f.name().as_str()).collect::<Vec<_>>().join(","));
+            }
             (format!("err:{}", variant(&e)), vec![])
         }
         Err(p) => {
@@ -80,7 +86,7 @@ pub fn run(ep: &Episode, o: &Opts, resend: bool, max: usize, with_schema: bool, 
     let steps: Vec<Value> = ep.batches.iter().map(|b| json!({"dicts": dicts_json(b, &mut ids), "n": b.num_rows(), "cols": cols_json(b)})).collect();
     let tops: Vec<i32> = schema_dicts(&ep.schema).iter().map(|inner| if *inner { 0 } else { 1 }).collect();
     Some(json!({
-        "op": "flight", "ep": epno, "name": ep.name, "fh": if resend { "resend" } else { "hydrate" }, "hand": o.hand(), "align": o.align, "ver": o.ver, "comp": o.comp, "ree": schema_has_ree(&ep.schema),
+        "op": "flight", "ep": epno, "name": ep.name, "fh": if resend { "resend" } else { "hydrate" }, "hand": o.hand(), "align": o.align, "ver": o.ver, "comp": o.comp, "ree": schema_has_ree(&ep.schema), "ulist": schema_has_union_in_list(&ep.schema), "reelist": schema_has_ree_in_list(&ep.schema),
         "max": max, "with_schema": with_schema, "nd": tops.len(), "top": tops,
         "schema": {"meta": schema_meta(&ep.schema), "fields": schema_fields(&ep.schema, PLAIN), "ufields": schema_fields(&ep.schema, PLAIN_U)},
         "hschema": {"fields": schema_fields(&ep.schema, HYD), "ufields": schema_fields(&ep.schema, HYD_U)},
